@@ -411,7 +411,7 @@ def run(ctx):
                 n *= 2 ** l - 1
             if n <= 400:
                 lvs.append((d, lv, n))
-    reps = 1 if quick else 4
+    reps = 1 if quick else 6
     for rep in range(reps):
         for d, lv, n in lvs:
             if ctx.out_of_time(0.4):
@@ -429,7 +429,7 @@ def run(ctx):
     tsec["direct_uniform"] = time.time() - t0
     t0 = time.time()
     # ---- (a) direct, bisection-tree stripes
-    n_tree = 80 if quick else 500
+    n_tree = 80 if quick else 1000
     for k in range(n_tree):
         if ctx.out_of_time(0.6):
             break
@@ -445,7 +445,7 @@ def run(ctx):
     tsec["direct_tree"] = time.time() - t0
     t0 = time.time()
     # ---- (b) standard training + coefficient optimisation
-    n_train = 30 if quick else 160
+    n_train = 30 if quick else 300
     for k in range(n_train):
         if ctx.out_of_time(0.8):
             break
@@ -465,7 +465,7 @@ def run(ctx):
     tsec["train"] = time.time() - t0
     t0 = time.time()
     # ---- (c) dimension-wise training + coefficient optimisation
-    n_sa = 20 if quick else 120
+    n_sa = 20 if quick else 250
     for k in range(n_sa):
         if ctx.out_of_time(0.95):
             break
